@@ -853,10 +853,10 @@ def build_work(tier, seed):
     fs, fp, ff = family_shared(tier), family_pool(tier), family_fanout(tier)
     if quick:
         rng.shuffle(fs); rng.shuffle(fp); rng.shuffle(ff)
-        fs, fp, ff = fs[:120], fp[:260], ff[:48]
-    cap, nrand = (10, 6) if quick else (120, 60)
-    rcap, rrand = (8, 6) if quick else (40, 30)
-    nprog = 600 if quick else 14000
+        fs, fp, ff = fs[:200], fp[:420], ff[:96]
+    cap, nrand = (10, 6) if quick else (40, 20)
+    rcap, rrand = (8, 6) if quick else (30, 20)
+    nprog = 900 if quick else 5000
     work = [(p, cap, nrand) for p in fs + fp + ff] + [(gen_random(rng), rcap, rrand) for _ in range(nprog)]
     rng.shuffle(work)  # so that a time cut-off keeps a bit of everything
     return work
@@ -884,7 +884,8 @@ def run_parallel(tier, seed, work, budget):
     import os
     try:
         import multiprocessing as mp
-        n = max(1, min(8, (os.cpu_count() or 2) // 2))
+        ncpu = len(os.sched_getaffinity(0)) if hasattr(os, "sched_getaffinity") else (os.cpu_count() or 2)
+        n = max(1, min(8, ncpu // 2))
         if n == 1: raise RuntimeError("single cpu")
         ctx = mp.get_context("fork")
         def child(conn, k):
